@@ -265,6 +265,32 @@ def self_call_thrice(*a, **k): return [self_call_thrice(x, *a, **k) for x in (1,
 '''
 
 
+# a module compiled with postponed annotations whose evaluation fails in other ways than NameError; documented through the Sphinx hook as well
+ADVERSARIAL_FUTURE = r'''
+import functools, typing, collections.abc
+CONFIG = {}
+def ann_attr(a: typing.DoesNotExist, *args, **kwargs) -> typing.NoSuchThing: return a
+def ann_type(a: collections.abc.Sized[int][str], b: 1 + 'x' = 2): return a
+def ann_key(a: CONFIG["missing"]): return a
+def ann_zero(a: (1 // 0)): return a
+def ann_name(a: OnlyForTypeChecking, *, k: AlsoMissing = None) -> Missing: return a
+def ann_syntax_like(a: "not valid python !"): return a
+def real_annotations(a: int, b: str = 's') -> bool: return True
+def target_ok(x: int, y: str = 's', *, z: float = 1.0) -> bool: return True
+def fwd_with_bad_annotations(first: typing.DoesNotExist, *args, **kwargs) -> CONFIG["missing"]: return target_ok(*args, **kwargs)
+@functools.wraps(real_annotations)
+def wraps_real(*args, **kwargs): return real_annotations(*args, **kwargs)
+'''
+
+# functions defined in a namespace whose __builtins__ is the MODULE (as in __main__, the REPL, python -m), reaching for builtin / undefined names
+BUILTINS_MODULE_SRC = r'''
+def calls_builtin(*args, **kwargs): return print(*args, **kwargs)
+def passes_builtin(*args, **kwargs): return target_b(sorted, *args, **kwargs)
+def calls_undefined(*args, **kwargs): return this_name_is_not_defined(*args, **kwargs)
+def target_b(f, x, y=1): return x
+'''
+
+
 class _Timeout(BaseException):
     pass
 
@@ -299,6 +325,20 @@ def adversarial_objects():
                         continue
                     if callable(m):
                         yield 'adv.%s.%s' % (name, mname), m
+
+
+def future_objects():
+    """-> (name, object) of the future-flag module and of the builtins-module namespace; names get one dot so that the Sphinx hook is run on them"""
+    import builtins
+    for modname, (g, fname) in (('verif_futuremod', progs.compile_module(ADVERSARIAL_FUTURE, future=True)),
+                                ('verif_builtinsmod', progs.compile_module(BUILTINS_MODULE_SRC, {'__builtins__': builtins}))):
+        # the hook fetches the object by its dotted name: the namespace is made importable under that name
+        m = types.ModuleType(modname)
+        sys.modules[modname] = m
+        for name, obj in sorted(g.items()):
+            if isinstance(obj, types.FunctionType) and obj.__code__.co_filename == fname:
+                setattr(m, name, obj)
+                yield modname + '.' + name, obj
 
 
 def outcome(thunk, declared=False):
@@ -457,6 +497,8 @@ def corpus_gen(mods, seed, frac):
                 k += 1
         if shard == 0:
             for name, obj in adversarial_objects():
+                yield obj_event('adv/%s' % name, name, obj)
+            for name, obj in future_objects():
                 yield obj_event('adv/%s' % name, name, obj)
     return gen
 
